@@ -404,6 +404,8 @@ func vfH_C10_dispatch() {
 			}
 			if last && id == 4 {
 				vfrt.Assert(peer.initialWindowSize == v, "dispatch/initial-window-applied-to-peer")
+				// SETTINGS_INITIAL_WINDOW_SIZE is about stream windows: the connection window only moves by WINDOW_UPDATE
+				vfrt.Assert(peer.connectionWindowSize == defaultInitialWindowSize && r.connectionWindowSize == defaultInitialWindowSize, "dispatch/initial-window-setting-leaves-the-connection-windows-alone")
 			}
 			if last && id == 5 {
 				vfrt.Assert(peer.maxFrameSize == v, "dispatch/max-frame-size-applied-to-peer")
